@@ -46,6 +46,16 @@ def wrap_loop_lines(tier, rng):
     return list(dict.fromkeys(L))
 
 
+def wrap_cli_lines():
+    """the bundled client uploading files of 65535..65540 blocks (and twice that): its first window after the OACK"""
+    L = []
+    name = "f.bin".encode().hex()
+    for nblocks in (65535, 65536, 65537, 65540, 131072, 131073):
+        for w in (1, 4):
+            L.append("cli u 8 %d 5 1 %s gen:%d:%d oack:blksize:8,windowsize:%d -" % (w, name, 8 * (nblocks - 1), nblocks % 251, w))
+    return L
+
+
 class LoopProp(Prop):
     assumptions = A_LOOP
     parallel = 8
@@ -310,6 +320,7 @@ class C14(LoopProp):
                 nfull = rng.choice([0, 1, ow - 1, ow, ow + 1, 2 * ow])
                 lens = [ob] * max(0, nfull) + ([rng.choice([0, 1, ob - 1])] if rng.random() < 0.8 else [])
                 L.append("cli d %d %d %d %d %s - %s %s" % (b, w, t, clean, hx(name), reply, ",".join(map(str, lens)) or "-"))
+        L += wrap_cli_lines()
         # directed: the client retransmits after ITS negotiated timeout (real time, 1 s): the peer acknowledges the options and falls silent
         for (b, w) in [(512, 1), (8, 3)]:
             L.append("cli u %d %d 1 1 %s gen:%d:7 oack:blksize:%d,windowsize:%d,timeout:1 R" % (b, w, hx("f.bin"), 2 * w * b + 5, b, w))
@@ -342,6 +353,24 @@ class C14(LoopProp):
                 return ("a refused request left a file on the client: %s %s" % (o["file"], o["extra"]), "cli-refusal-creates-file")
             if o["conv"] != "-":
                 return ("the client answers the server's ERROR with %s" % o["conv"], "cli-answers-error")
+        if upload and reply.startswith("oack:") and t[9] == "-":
+            # the first window of the upload: blocks 1..min(windowsize, N) of the acknowledged block size, cut from the file in order
+            ob, ow = b, w
+            if reply != "oack:-":
+                for kv in reply[5:].split(","):
+                    k, v = kv.split(":")
+                    if k == "blksize":
+                        ob = int(v)
+                    if k == "windowsize":
+                        ow = int(v)
+            if 8 <= ob <= b and 1 <= ow <= w:
+                f = content(t[7]) if t[7] != "-" else b""
+                nblocks = len(f) // ob + 1
+                want_burst = ["D%d:%d:%d" % (k % 65536, len(f[(k - 1) * ob:k * ob]), fnv(f[(k - 1) * ob:k * ob])) for k in range(1, min(ow, nblocks) + 1)]
+                got = [x for x in o["conv"].split(" ") if x.startswith("D")]
+                if got[:len(want_burst)] != want_burst:
+                    return ("after the OACK (blksize %d, windowsize %d) the client's first window is not blocks 1..%d of its %d-block file (%s)" % (
+                        ob, ow, min(ow, nblocks), nblocks, " ".join(got[:6]) or "nothing sent"), "cli-upload-first-window")
         if not upload and reply.startswith("oack:"):
             # values of the OACK are the ones the transfer uses: the blocks we sent are full blocks of the acknowledged size followed by
             # (possibly) one short block; a completed download is stored under the basename, byte-identical
